@@ -14,7 +14,7 @@ monitor_name = "C20Check.c20_ok"
 sub_names = {1: "the ordered history of one run with init_tracing()"}
 rule = ("cases = 1-5 scenarios (1-3 steps each, @retry(N) with failing first attempts or none) whose step bodies emit 0-3 tracing "
         "events before and 0-2 after an await point that yields 0-3 times (30% of the cases have one chatty step with a burst of 26-89 "
-        "messages; 25% of the steps emit inside a user span nested in the step's span; 40% of the runs are polled inside an "
+        "messages; 25% of the steps emit inside a user span nested in the step's span; 20% of the steps emit messages whose text contains double underscores; 40% of the runs are polled inside an "
         "application-level span), concurrency 1..8 or unlimited; ONE run per process "
         "(the subscriber is global) through the REAL Cucumber::init_tracing() with a recording writer in front of which there is no "
         "Normalize. The trace points of the hook (forwarder calls, span closes, subscriptions), the harness's own records (step "
@@ -38,7 +38,7 @@ def gen_one(rng):
         sid = 11 + i
         retry = None if rng.random() < 0.5 else rng.randrange(0, 3)
         steps = [dict(id=sid * 10 + j + 1, pre=rng.choice([0, 1, 2, 3]), yields=rng.choice([0, 0, 1, 3]), post=rng.choice([0, 1, 2]),
-                      inner=rng.random() < 0.25)
+                      inner=rng.random() < 0.25, under=rng.random() < 0.2)
                  for j in range(rng.randrange(1, 4))]
         scs.append(dict(id=sid, retry=retry, fails=min(rng.choice([0, 0, 1, 2]), (retry or 0) + 1), steps=steps))
     if rng.random() < 0.3:          # a chatty step: a burst of messages between two await points
@@ -93,4 +93,5 @@ def describe(case, res):
             "msgs=%s" % ("0" if nmsgs(case) == 0 else "<6" if nmsgs(case) < 6 else ">=6"),
             "retry=%s" % any(sc["retry"] for sc in case["scenarios"]), "outer_span=%s" % bool(case.get("outer")),
             "inner_span=%s" % any(st.get("inner") for sc in case["scenarios"] for st in sc["steps"]),
+            "dunder=%s" % any(st.get("under") for sc in case["scenarios"] for st in sc["steps"]),
             "burst=%s" % any(st["pre"] > 8 or st["post"] > 8 for sc in case["scenarios"] for st in sc["steps"])]
